@@ -1,9 +1,83 @@
 import Driver.Util
-open Lean
+import Torf.Model.Handles
+open Lean Torf Torf.Handles
 namespace Driver.C19
 
-/-- ops of property C19: `c19.<name>` -/
-def handle (op : String) (_j : Json) : Except String Json :=
-  throw s!"unknown op {op}"
+/-- digests in the driver: `(0, piece)` is the genuine digest of `piece` (the harness applies
+    real SHA-1 to the bytes), `(1, piece)` a stored hash that is deliberately wrong -/
+abbrev Dig := Nat × List Nat
+
+/-- the stream geometry by plain arithmetic (layouts without zero-length files): files having
+    a byte in `[iL, min((i+1)L, T))`, and `seek_to = iL − pos(first relevant file)` -/
+def geomArith (sizes : List Nat) (L : Nat) (i : Nat) : Except Err (List Nat × Nat) :=
+  let T := sizes.sum
+  let lo := i * L
+  let hi := min ((i + 1) * L) T
+  let ents : List (Nat × Nat × Nat) :=
+    (sizes.zipIdx.foldl (fun (acc : List (Nat × Nat × Nat) × Nat) (sz, j) =>
+      (acc.1 ++ [(j, acc.2, sz)], acc.2 + sz)) ([], 0)).1
+  let rel := ents.filter fun (_, pos, sz) => pos < hi && lo < pos + sz
+  match rel with
+  | [] => .ok ([], 0)
+  | (_, pos, _) :: _ => .ok (rel.map (·.1), lo - pos)
+
+def parseOp (j : Json) : Except String Op := do
+  let name ← getStr j "op"
+  match name with
+  | "iterFull" => return .iterFull
+  | "iterAbandon" => return .iterAbandon (← getNat j "a")
+  | "getPiece" => return .getPiece (← getInt j "a")
+  | "getPieceHash" => return .getPieceHash (← getInt j "a")
+  | "verifyPiece" => return .verifyPiece (← getInt j "a")
+  | "close" => return .close
+  | "ctxExit" => return .ctxExit
+  | _ => throw s!"unknown stream op {name}"
+
+def errName : Err → String
+  | .value => "ValueError"
+  | .assertion => "AssertionError"
+  | .closedHandle => "closed-handle"
+  | .fuel => "fuel"
+
+def digJson (d : Dig) : Json := jobj [("wrong", jbool (d.1 != 0)), ("of", pieceJson d.2)]
+
+def outJson : Out Nat Dig → Json
+  | .pieces ps => jobj [("k", "pieces"), ("v", jarr (ps.map pieceJson))]
+  | .piece p => jobj [("k", "piece"), ("v", pieceJson p)]
+  | .digest d => jobj [("k", "digest"), ("v", digJson d)]
+  | .bool b => jobj [("k", "bool"), ("v", jbool b)]
+  | .none => jobj [("k", "none")]
+  | .err e => jobj [("k", "err"), ("v", jstr (errName e))]
+
+/-- op `c19.history` : {L, sizes, cap, ops, wrong : [piece indexes whose stored hash is wrong],
+    fix? : Bool} ↦ per operation the model's answer `m`, the specification's answer `s`
+    (null when equal to `m`) and the size of the handle table afterwards `nopen`;
+    `hyp` = piece length ≥ 1 and no zero-length file (the arithmetic geometry is then the
+    code's geometry; zero-length files are C11's business). -/
+def history (j : Json) : Except String Json := do
+  let L ← getNat j "L"
+  let sizes ← getNats j "sizes"
+  let cap ← getNat j "cap"
+  let wrong := (getNats j "wrong").toOption.getD []
+  let fix := (getBool j "fix").toOption.getD true
+  let ops ← (← getArr j "ops").mapM parseOp
+  let files := mkFiles sizes
+  let H : List Nat → Dig := fun p => (0, p)
+  let stored : List Dig := (chunks L files.flatten).zipIdx.map fun (p, i) =>
+    if wrong.contains i then (1, p) else (0, p)
+  let c : Cfg Nat Dig :=
+    { files := files, L := L, cap := cap, geom := geomArith sizes L, H := H, stored := stored,
+      fix := fix }
+  let res := runAll c ops []
+  let rows := (ops.zip res).map fun (op, (o, n)) =>
+    let s := specOut files L H stored op
+    jobj [("m", outJson o), ("s", if s == o then Json.null else outJson s), ("nopen", jnat n)]
+  return jobj [("rows", jarr rows), ("hyp", jbool (L > 0 && sizes.all (· > 0))),
+               ("npieces", jnat (nPieces L sizes.sum))]
+
+def handle (op : String) (j : Json) : Except String Json :=
+  match op with
+  | "c19.history" => history j
+  | _ => throw s!"unknown op {op}"
 
 end Driver.C19
